@@ -21,6 +21,7 @@
  R9 first reason  : a blocking reason already set is never overwritten by a later check.
  R10 mode copy    : the selected mode is copied onto the request completely and identically in every copy block.
  Rn arg roles     : a variable named like a parameter of the callee is handed to that parameter (no exchanged roles).
+ R11 penalties rebuilt: calc_penalties rebuilds the penalties on every call (shared with C13).
 """
 import ast
 
@@ -478,6 +479,15 @@ def rn_arg_roles(ctx):
     ctx.check('Rn.arg-roles', 'argument / parameter name scan', True, 'C19|arg-roles-scan', '', f'{n} argument(s) named like another parameter judged')
 
 
+
+def r11_penalties_rebuilt(ctx):
+    """R11: the penalties reported for the selected mode are that mode's: Transceiver.calc_penalties rebuilds the penalties dict on
+    every call (nothing of a previously explored mode survives) - rule shared with C13"""
+    from .c13 import r4_penalties as _r
+    from .common import proxy
+    _r(proxy(ctx, 'R11'))
+
+
 from ..memo import rule_for as _memo_rule
 
 RULES_MEMO = ('Rm.memo', _memo_rule('C19', 'a result would report figures of another request'))
@@ -488,4 +498,4 @@ from ..presence import rule_for as _presence_rule
 RULES_PRESENCE = ('Rp.presence', _presence_rule('C19', 'a legal zero would be reported as missing'))
 
 RULES = [('R6.own-objects', r6_own_objects), ('R1.metrics', r1_metrics), ('R2.directions', r2_directions), ('R3.dispatch', r3_dispatch), ('R4.csv', r4_csv),
-         ('R5.aggregation', r5_aggregation), RULES_MEMO, RULES_PRESENCE, ('R7.carried', r7_carried), ('R8.same-request', r8_same_request), ('R9.first-reason', r9_first_reason), ('R10.mode-copy', r_mode_copy), ('Rn.arg-roles', rn_arg_roles)]
+         ('R5.aggregation', r5_aggregation), RULES_MEMO, RULES_PRESENCE, ('R7.carried', r7_carried), ('R8.same-request', r8_same_request), ('R9.first-reason', r9_first_reason), ('R10.mode-copy', r_mode_copy), ('Rn.arg-roles', rn_arg_roles), ('R11.penalties', r11_penalties_rebuilt)]
